@@ -256,6 +256,29 @@ def run(ctx):
                   "Settings::encode iterates %s, len() iterates %s" % (r1, r2), str(r1))
         eh = [t for bb, t in se.calls("FrameHeader::encode_header", "encode_header")]
         ctx.check(len(eh) == 1, "C14-b", se.key, "header (type + len()) written first", "encode_header calls: %d" % len(eh), "")
+    # .. and each entry is accounted with the size of the very varints that are written for it: size() of from_u64(identifier) and of
+    # from_u64(value), the whole 62-bit value (a narrowing cast makes the declared frame length too small for large values)
+    slc = [b_ for b_ in prog.find(r"^<h3::proto::frame::Settings as h3::proto::frame::FrameHeader>::len(::\{closure#\d+\})?$")]
+    nsz = 0
+    for b_ in slc:
+        for p in [p for p in ru.all_paths(ctx, "C14-b", b_, max_visits=1) if p.end in ("return", "stop", "loop-cut")]:
+            szs = p.calls("h3::proto::varint::VarInt::size")
+            if not szs:
+                continue
+            nsz += 1
+            srcs = []
+            for e in szs:
+                v = e[3][0]
+                while v[0] in ("okval", "proj") or (v[0] == "call" and pa.short(v[1]) in ("unwrap", "expect") and v[2]):
+                    v = v[1] if v[0] in ("okval", "proj") else v[2][0]
+                srcs.append(v)
+            ok = len(srcs) == 2 and all(v[0] == "call" and v[1] == "h3::proto::varint::VarInt::from_u64" and v[2] and v[2][0][0] in ("param", "local", "proj") and
+                                        not expr.mentions(v[2][0], lambda n: n[0] in ("cast", "binop")) for v in srcs) and srcs[0][2][0] != srcs[1][2][0]
+            ctx.check(ok, "C14-b", b_.key, "each entry counts size(from_u64(id)) + size(from_u64(value)), uncast",
+                      "Settings::len accounts an entry with the sizes of %s: the length declared in the frame header differs from the bytes "
+                      "written for values that do not survive the conversion (the peer reads past the frame or stops short of it)"
+                      % [pa.vfmt(v)[:60] for v in srcs], "", None, p.describe())
+    ctx.floor("C14-b", "entry-size computations in Settings::len", nsz, 1)
     # ------------------------------------------------------------------ C14-c grease formulas
     forms = {}
     for key in ("h3::proto::frame::FrameType::grease", "h3::proto::stream::StreamType::grease", "h3::proto::frame::SettingId::grease"):
